@@ -47,13 +47,13 @@ func propC02(a *Analysis, r *Registry) {
 			env := X.EnvFor(fn, "d", "U")
 			fc := X.Under(fn, X.AssumeEq(env.MustParse("d.hasTies()"), S.True()), X.AssumeCond(env.MustParse("U<0 || 0.5+d.N1*d.N2<=U"), false),
 				X.AssumeCond(env.MustParse("U<0"), false), X.AssumeCond(env.MustParse("0.5+d.N1*d.N2<=U"), false))
-			b.Eq(rB, name+"/tied", b.pos(fn), fc.Sub(fc.RetVal(0)), env, "("+A("int(2*U)")+"-"+A("(int(2*U)-1)")+")/mathx.Choose(d.N1+d.N2, d.N1)")
+			b.EqUnder(rB, name+"/tied", b.pos(fn), fc, fc.RetVal(0), env, "("+A("int(2*U)")+"-"+A("(int(2*U)-1)")+")/mathx.Choose(d.N1+d.N2, d.N1)")
 		})
 		b.guard(rB, name+"/untied", func() {
 			env := X.EnvFor(fn, "d", "U")
 			fc := X.Under(fn, X.AssumeEq(env.MustParse("d.hasTies()"), S.False()),
 				X.AssumeCond(env.MustParse("U<0"), false), X.AssumeCond(env.MustParse("0.5+d.N1*d.N2<=U"), false))
-			b.Eq(rB, name+"/untied", b.pos(fn), fc.Sub(fc.RetVal(0)), env, "d.p(int(floor(U)))[int(floor(U))]")
+			b.EqUnder(rB, name+"/untied", b.pos(fn), fc, fc.RetVal(0), env, "d.p(int(floor(U)))[int(floor(U))]")
 		})
 	}
 	if fn := b.Fn(rB, "stats.(UDist).CDF"); fn != nil {
@@ -74,7 +74,7 @@ func propC02(a *Analysis, r *Registry) {
 			env := X.EnvFor(fn, "d", "U")
 			fc := X.Under(fn, X.AssumeEq(env.MustParse("d.hasTies()"), S.True()),
 				X.AssumeCond(env.MustParse("U<0"), false), X.AssumeCond(env.MustParse("d.N1*d.N2<=U"), false))
-			b.Eq(rB, name+"/tied", b.pos(fn), fc.Sub(fc.RetVal(0)), env, A("int(2*U)")+"/mathx.Choose(d.N1+d.N2, d.N1)")
+			b.EqUnder(rB, name+"/tied", b.pos(fn), fc, fc.RetVal(0), env, A("int(2*U)")+"/mathx.Choose(d.N1+d.N2, d.N1)")
 		})
 		b.guard(rB, name+"/untied", func() {
 			env := X.EnvFor(fn, "d", "U")
@@ -112,8 +112,8 @@ func propC02(a *Analysis, r *Registry) {
 			}
 			env.Set("e", S.atomRF(el[0].ID), nil)
 			b.EqRF(rB, name+"/untied/sum-init", b.pos(fn), pi, S.Int(0), "sum starts at 0")
-			b.Eq(rB, name+"/untied/sum-step", b.pos(fn), fc.Sub(pn), env, "p+e")
-			b.Eq(rB, name+"/untied/summed-range", b.pos(fn), fc.Sub(el[0].Args[0]), env, "slice(d.p(Uj), _, Uj+1, _)")
+			b.EqUnder(rB, name+"/untied/sum-step", b.pos(fn), fc, pn, env, "p+e")
+			b.EqUnder(rB, name+"/untied/summed-range", b.pos(fn), fc, el[0].Args[0], env, "slice(d.p(Uj), _, Uj+1, _)")
 		})
 	}
 	b.Formula(rB, "stats.(UDist).Step", "stats.(UDist).Step", []string{"d"}, nil, 0, "0.5", nil)
